@@ -87,6 +87,27 @@ CLAIMS = {
              "oracle. Partial: sub/div/inverse/floor/ceil/in-place variants are mirrored and tied but their exactness is not "
              "proved; gcd/lcm/% are checked against GMP only.",
         design_ref="5 C15"),
+    "C14": dict(
+        technique="Lean 4 proof (mirror of the Boolean constructors with semantic-equivalence theorems) tied structurally on propositional scripts, plus Lean evaluation of every constructed term against its input term",
+        text="Theorems for the mirrored constructors mkNot/mkAnd/mkOr/mkXor/mkImpl/mkIte/mkBinaryEq/mkEq/mkDistinct(Bool): the "
+             "returned term is equivalent to the operator applied to the arguments in every interpretation. Tie: (a) on "
+             "propositional scripts the mirror's bottom-up construction must equal the term opensmt constructed (hook trace) "
+             "up to commutative argument order; (b) for all logics and all constructors incl. arithmetic (sum, product, "
+             "difference, negation, real division, div, mod, the four comparisons and their normal forms, ite, distinct) the "
+             "constructed term of every asserted input term is evaluated by the Lean evaluator under 24 interpretations per "
+             "script and must agree with the input term. Partial: arithmetic normal forms have no mirror-level theorem; "
+             "select/store are not covered.",
+        design_ref="5 C14"),
+    "C27": dict(
+        technique="Lean 4 proof (Euclidean div/mod folding, div/mod axioms, integer bound tightening, gcd normalisation, difference negation) tied by front-end runs and a header harness",
+        text="Theorems for all integers/rationals: foldDiv/foldMod (mirror of mkIntDiv/mkMod folding: floor for positive, ceil "
+             "for negative divisors) equal Int.ediv/emod; the div/mod elimination axioms characterise exactly them; strict and "
+             "non-strict bounds on integers from rational constants (getBoundsValueForIntVar) are exact; gcd normalisation and "
+             "the negation of difference constraints keep the integer solutions; LA.tighten_sound. Tie: folded constants of "
+             "the front end vs the mirror on a boundary lattice of (a,d); integer comparison atoms with non-unit coefficients "
+             "vs their constructed normal forms evaluated in Lean on an integer grid; Converter<SafeInt>::negate/getValue "
+             "harness vs the mirror.",
+        design_ref="5 C27"),
 }
 
 PENDING = "not yet built in this round; design in DESIGN.md section 5, construction order in section 10"
